@@ -75,7 +75,8 @@ def frac(s):
 def py_digest(d, kmin, kmax, idlo, idhi):
     """(count, s1, s2, bad_post, bad_pre) from the implementation; None if it raised.
     bad_* count results that are not exactly k calendar months later (or a month end that did
-    not stay one); `pre` = the expected month is before 1970-01 (domain of finding D8)."""
+    not stay one); `pre` = the expected month is before 1970-01 and the start is not a month end (domain
+    of finding D8: month ends with integer offsets are exact in every year, theorem addMonths_monthEnd)."""
     add_months = du.add_months
     i0 = mid(d)
     lo, hi = max(kmin, idlo - i0), min(kmax, idhi - i0)
@@ -91,7 +92,7 @@ def py_digest(d, kmin, kmax, idlo, idhi):
             s1 += o
             s2 += (k - kmin + 1) * o
             if r.year * 12 + r.month - ym != k or (me and (r + ONE).day != 1):
-                if i0 + k < 0:
+                if i0 + k < 0 and not me:
                     bad_pre += 1
                 else:
                     bad_post += 1
@@ -160,14 +161,14 @@ def expand_date(ctx, d, idlo, idhi, limit=6):
             if n_fail <= limit:
                 ctx.fail("add_months raised on an in-range date and integer month offset", case, {"raised": v, "model": mo})
         elif not sp:
-            if i0 + k < 0:
+            if i0 + k < 0 and not is_month_end(d):
                 n_known += 1
                 known_once(ctx, case)
             else:
                 n_fail += 1
                 if n_fail <= limit:
                     ctx.fail("add_months(d, k) is not exactly k calendar months after d / month end not kept "
-                             "(expected result >= 1970-01-01)", case,
+                             "(expected result >= 1970-01-01, or a month end moved by an integer)", case,
                              {"impl": im, "model": mo, "expected_month": w_date(month_end_of_id(i0 + k))[:2]})
         elif im != mo:
             n_dis += 1
@@ -234,6 +235,7 @@ def pair_task(task):
         o1, o2 = drv.run([
             {"op": "inverse", "items": items, "impl": [w_date(r) for _, _, _, r in to_model]},
             {"op": "addMonths", "items": [w_date(fo(po)) + [w_rat(lag)] for po, _, lag, _ in to_model]}])
+        retry = []
         for (po, eo, lag, r), mlag, mres, sp, mres2 in zip(to_model, o1["lag"], o1["model"], o1["spec"], o2["model"]):
             wr = w_date(r)
             ml = Fraction(mlag)
@@ -247,12 +249,26 @@ def pair_task(task):
             # float rounding decides the side; there the implementation must match the model on the float lag
             # or on the exact lag.
             if mres2 != wr and (eo >= ORD_1970 or mres != wr):
-                recs.append(("dis-add", po, eo, wr, {"lag": w_rat(lag), "model_on_impl_lag": mres2}))
+                if eo < ORD_1970:
+                    retry.append((po, eo, lag, wr, mres2))
+                else:
+                    recs.append(("dis-add", po, eo, wr, {"lag": w_rat(lag), "model_on_impl_lag": mres2}))
             if is_month_end(p) and is_month_end(e):
                 if Fraction(lag) != ml:
                     recs.append(("lag-int", po, eo, w_rat(lag), mlag))
             elif abs(Fraction(lag) - ml) > TOL * max(1, abs(ml)):
                 recs.append(("dis-lag", po, eo, w_rat(lag), mlag))
+        if retry:
+            # e < 1970 only: the day can sit on a rounding tie of the (wrong) month the truncation selects; the
+            # implementation must then agree with the model on a lag within 2^-36 of its own float lag
+            eps = Fraction(1, 2 ** 36)
+            items = [w_date(fo(po)) + [w_rat(Fraction(lag) + s * eps)] for po, _, lag, _, _ in retry for s in (-1, 1)]
+            o3 = common.Driver(DRV).run([{"op": "addMonths", "items": items}])[0]["model"]
+            for i, (po, eo, lag, wr, mres2) in enumerate(retry):
+                if wr not in (o3[2 * i], o3[2 * i + 1]):
+                    recs.append(("dis-add", po, eo, wr, {"lag": w_rat(lag), "model_on_impl_lag": mres2}))
+                else:
+                    recs.append(("tie-pre1970", po, eo, wr, None))
     return n, len(to_model), recs
 
 
@@ -537,7 +553,7 @@ def stream_resolution(ctx, rng, n):
             continue
         k = -mq if it[5] else mq
         if not sp or same is False:
-            if mu == "month" and i0 + k < 0 and same is not False:
+            if mu == "month" and i0 + k < 0 and same is not False and not is_month_end(D(*it[:3])):
                 known_once(ctx, case)
             else:
                 ctx.fail("resolution_delta does not agree with add_months (month units) / day arithmetic (day, week units)",
